@@ -125,7 +125,11 @@ type tcase struct {
 	negotiated string
 	// closeAt >= 0: another goroutine calls Session.Close once that many
 	// transport writes have been attempted, while the callers are still at it
-	closeAt  int
+	closeAt int
+	// failAt >= 0: the connection breaks: that transport write and every later
+	// one fail (nothing of them reaches the peer).  Calls may then fail; one
+	// that reports success has its element on the wire all the same
+	failAt   int
 	routines [][]*call // caller goroutines
 	handler  []*call   // calls executed as handler replies in the serve goroutine
 	yields   []int     // scheduler yields before the k-th transport write
@@ -148,7 +152,7 @@ func (tc tcase) ns() string {
 
 func (tc tcase) String() string {
 	var sb strings.Builder
-	fmt.Fprintf(&sb, "s2s=%v session=%q yields=%v Close()-from-another-goroutine-after-write=%d", tc.s2s, tc.negotiated, tc.yields, tc.closeAt)
+	fmt.Fprintf(&sb, "s2s=%v session=%q yields=%v Close()-from-another-goroutine-after-write=%d connection-breaks-at-write=%d", tc.s2s, tc.negotiated, tc.yields, tc.closeAt, tc.failAt)
 	for g, r := range tc.routines {
 		fmt.Fprintf(&sb, "\n goroutine %d:", g)
 		for _, c := range r {
@@ -219,6 +223,29 @@ func genKids(t *rapid.T, ns string) []*xt.Node {
 			k.Name.Space = "urn:verif:y"
 			k.Attr = append(k.Attr, xml.Attr{Name: xml.Name{Local: "xmlns"}, Value: "urn:verif:y"})
 			kids = append(kids, k)
+		case 5:
+			// raw-token style (what xml.Decoder.RawToken or hand-built tokens look
+			// like, e.g. in a proxy relaying XML): no namespace in the name, the
+			// namespace only in an unqualified xmlns attribute, inherited by the
+			// children
+			if rapid.Bool().Draw(t, "rawstyle") {
+				k := gen.Tree(t, "rk", rapid.IntRange(0, 1).Draw(t, "rkdepth"), "urn:verif:raw")
+				var strip func(n *xt.Node)
+				strip = func(n *xt.Node) {
+					if n.IsText() {
+						return
+					}
+					n.Name.Space = ""
+					for _, c := range n.Children {
+						strip(c)
+					}
+				}
+				strip(k)
+				k.Attr = append(k.Attr, xml.Attr{Name: xml.Name{Local: "xmlns"}, Value: "urn:verif:raw"})
+				kids = append(kids, k)
+				break
+			}
+			kids = append(kids, gen.Tree(t, "k", rapid.IntRange(0, 2).Draw(t, "kdepth"), ns))
 		case 3:
 			if !lastText && rapid.IntRange(0, 3).Draw(t, "big") == 0 {
 				size := rapid.SampledFrom([]int{4000, 4096, 5000, 20000, 100000}).Draw(t, "bigsize")
@@ -582,9 +609,11 @@ func (c *call) reader() xml.TokenReader {
 func genCase(t *rapid.T) tcase {
 	tc := tcase{s2s: rapid.Bool().Draw(t, "s2s")}
 	tc.negotiated = rapid.SampledFrom([]string{"", "", "initiated", "received"}).Draw(t, "negotiated")
-	tc.closeAt = -1
+	tc.closeAt, tc.failAt = -1, -1
 	if rapid.IntRange(0, 3).Draw(t, "closeConcurrently") == 0 {
 		tc.closeAt = rapid.IntRange(0, 6).Draw(t, "closeAt")
+	} else if rapid.IntRange(0, 3).Draw(t, "connectionBreaks") == 0 {
+		tc.failAt = rapid.IntRange(0, 8).Draw(t, "failAt")
 	}
 	ns := tc.ns()
 	s2sFrom := ""
@@ -604,9 +633,10 @@ func genCase(t *rapid.T) tcase {
 	}
 	nh := rapid.IntRange(0, 3).Draw(t, "nhandler")
 	for i := 0; i < nh; i++ {
-		if tc.closeAt >= 0 {
+		if tc.closeAt >= 0 || tc.failAt >= 0 {
 			// (a handler whose reply comes after the Close fails and ends Serve: no
-			// handler replies in histories with a concurrent Close)
+			// handler replies in histories with a concurrent Close or a connection
+			// that breaks)
 			break
 		}
 		tc.handler = append(tc.handler, genCall(t, idx, ns, s2sFrom, true))
@@ -810,6 +840,9 @@ func check(t interface {
 		}
 		for i := 0; i < tc.yields[n%len(tc.yields)]; i++ {
 			runtime.Gosched()
+		}
+		if tc.failAt >= 0 && n >= tc.failAt {
+			return wire.ErrInjected
 		}
 		return nil
 	}
@@ -1022,7 +1055,7 @@ func check(t interface {
 			fail("call #%d did not return", c.idx)
 		}
 		got := seen[strconv.Itoa(c.idx)]
-		if c.err == nil && tc.closeAt < 0 && copies[strconv.Itoa(c.idx)] != 1+c.resend {
+		if c.err == nil && tc.closeAt < 0 && tc.failAt < 0 && copies[strconv.Itoa(c.idx)] != 1+c.resend {
 			fail("call #%d transmitted its tokens %d times, %d elements of it are on the wire", c.idx, 1+c.resend, copies[strconv.Itoa(c.idx)])
 		}
 		if c.err == nil && got == nil {
@@ -1034,6 +1067,10 @@ func check(t interface {
 			if got != nil && copies[strconv.Itoa(c.idx)] > c.resend {
 				fail("call #%d failed with %v but its complete element is on the wire", c.idx, c.err)
 			}
+			continue
+		}
+		if c.err != nil && tc.failAt >= 0 {
+			// the connection broke: failing is what the call should do
 			continue
 		}
 		if c.err != nil && !c.blocking {
@@ -1051,6 +1088,9 @@ func check(t interface {
 
 func classify(tc tcase) (bool, []string) {
 	var classes []string
+	if tc.failAt >= 0 {
+		classes = append(classes, "connection-breaks-during-the-calls")
+	}
 	multiWrite, withStart, completion := false, false, false
 	for _, c := range tc.all() {
 		classes = append(classes, "entry-"+c.entry, "form-"+c.form)
